@@ -14,6 +14,8 @@ type vfC16Mon struct {
 	parked  map[string]bool   // messages that were inside the validation pipeline when a blacklisting happened
 	handled map[string]bool   // messages whose RPC was handled (counted once)
 	counted int
+	backlog map[string]int // RPCs that were waiting in the peer's queue when it was blacklisted through the API (the queue
+	// leaves the node's reachable state then, but its writer still holds it: part of the state for the search)
 }
 
 func vfC16Canon(in *vfGWInst) string {
@@ -23,7 +25,12 @@ func vfC16Canon(in *vfGWInst) string {
 		l = append(l, k+"="+v)
 	}
 	sort.Strings(l)
-	return strings.Join(l, ",") + "|parked=" + strings.Join(vfKeys(m.parked), ",")
+	var b []string
+	for k, v := range m.backlog {
+		b = append(b, fmt.Sprintf("%s:%d", k, v))
+	}
+	sort.Strings(b)
+	return strings.Join(l, ",") + "|parked=" + strings.Join(vfKeys(m.parked), ",") + "|backlog=" + strings.Join(b, ",")
 }
 
 func vfC16Oracle(in *vfGWInst, evFull string, pre, post *vfSnap) {
@@ -42,6 +49,9 @@ func vfC16Oracle(in *vfGWInst, evFull string, pre, post *vfSnap) {
 		}
 		if _, already := m.black[f[1]]; !already || how == "api" {
 			m.black[f[1]] = how
+		}
+		if how == "api" && pre.QueueLen[f[1]] > 0 {
+			m.backlog[f[1]] = pre.QueueLen[f[1]]
 		}
 		// messages inside the pipeline at this moment are counted, not judged (DESIGN.md §5.1)
 		for _, p := range g.pendingVals() {
@@ -95,6 +105,15 @@ func vfC16Oracle(in *vfGWInst, evFull string, pre, post *vfSnap) {
 		}
 		if len(g.wire[x]) > 0 && !(f[0] == "ungate" && f[1] == x) && !(f[0] == "bl" && f[1] == x) {
 			in.bad("c16:sent-to-blacklisted", "traffic was written to blacklisted %s: %s", x, vfRenderRPC(g.wire[x][0].rpc, g.midFn()))
+		}
+		// when the blocked write is released, the one RPC the writer already held may go out; whatever was still in
+		// the (closed) queue may not
+		if f[0] == "ungate" && f[1] == x {
+			delete(m.backlog, x)
+			in.count("blacklisted_with_a_blocked_write")
+			if len(g.wire[x]) > 1 {
+				in.bad("c16:backlog-sent-to-blacklisted", "%d RPCs were written to blacklisted %s after its blocked write was released (only the one already taken from the queue may go out): then %s", len(g.wire[x]), x, vfRenderRPC(g.wire[x][1].rpc, g.midFn()))
+			}
 		}
 	}
 	// ---- later-completing outbound streams are refused
@@ -190,6 +209,16 @@ func vfC16Scenarios(thorough bool) []*vfGWScenario {
 				Alphabet: alphabet, Msgs: msgs, Depth: d})
 		}
 	}
+	// a backlog in p's outbound queue (its link is congested) at the moment of the blacklisting
+	for _, router := range []string{"gossip", "flood"} {
+		pc := peers
+		if router == "flood" {
+			pc = []vfPeerCfg{{Name: "p", Proto: "fs", IP: "10.0.0.1"}, {Name: "q", Proto: "fs", IP: "10.0.0.2"}, {Name: "r", Proto: "fs", IP: "10.0.0.3"}}
+		}
+		out = append(out, &vfGWScenario{Name: router + "-backlog", Cfg: vfGWCfg{Router: router, Peers: pc, Topics: []string{"t"}, Params: "d2", SeenTTL: 3600,
+			Prefix: append(append([]string{}, base...), "conn:p", "sub:p:t", "graft:p:t", "gate:p")},
+			Alphabet: []string{"bl:p", "blimpl:p", "ungate:p", "lpub:t:p1", "lpub:t:p2", "pub:q:m3", "pub:q:m4", "disc:p"}, Msgs: msgs, Depth: d})
+	}
 	// a message of p parked in (asynchronous, gated) validation while the blacklisting happens
 	out = append(out, &vfGWScenario{Name: "pipeline", Cfg: vfGWCfg{Router: "gossip", Peers: peers, Topics: []string{"t"}, Params: "d2", SeenTTL: 3600,
 		Prefix: append(append([]string{}, base...), "conn:p", "sub:p:t"), Validators: []vfValCfg{{Name: "V", Topic: "t", Gated: true}}},
@@ -199,7 +228,7 @@ func vfC16Scenarios(thorough bool) []*vfGWScenario {
 
 func vfC16Mk(x *vfExec, sc *vfGWScenario) vfInstance {
 	in := newVfGWInst(x, sc, nil)
-	in.mon = &vfC16Mon{black: map[string]string{}, parked: map[string]bool{}, handled: map[string]bool{}}
+	in.mon = &vfC16Mon{black: map[string]string{}, parked: map[string]bool{}, handled: map[string]bool{}, backlog: map[string]int{}}
 	in.monCanon = vfC16Canon
 	in.oracle = vfC16Oracle
 	in.finishFn = func(in *vfGWInst) {
